@@ -336,6 +336,7 @@ func (fx *FuncExec) isBackEdge(u, h *ssa.BasicBlock) bool {
 func (fx *FuncExec) Run() {
 	fx.computeCFG()
 	fx.findCaptured()
+	fx.staticCallOrdinals()
 	// pass 0: discover the heap key universe
 	fx.discard++
 	snap := len(fx.em.lines)
@@ -343,18 +344,6 @@ func (fx *FuncExec) Run() {
 	fx.em.lines = fx.em.lines[:snap]
 	fx.discard--
 	fx.universeFrozen = true
-	// call-site ordinals in source order: rank each call among the calls to the same callee
-	byName := map[string][]ssa.Instruction{}
-	for in, n := range fx.callNames {
-		byName[n] = append(byName[n], in)
-	}
-	fx.callOrdStatic = map[ssa.Instruction]int{}
-	for _, ins := range byName {
-		sort.SliceStable(ins, func(i, j int) bool { return ins[i].Pos() < ins[j].Pos() })
-		for i, in := range ins {
-			fx.callOrdStatic[in] = i + 1
-		}
-	}
 	fx.returns = nil
 	fx.callOrd = map[string]int{}
 	fx.unlockOrd, fx.lockOrd = 0, 0
@@ -1617,4 +1606,46 @@ func freeVarWritten(fv *ssa.FreeVar, depth int) bool {
 func (fx *FuncExec) declareToInt() {
 	fx.em.DeclareBase("f64.toint", "(declare-fun f64.toint (F64) Int)")
 	fx.em.DeclareBase("f64.toint.ax", "(assert (forall ((i Int)) (! (=> (and (< (- 9007199254740992) i) (< i 9007199254740992)) (= (f64.toint ((_ to_fp 11 53) RNE (to_real i))) i)) :pattern ((f64.toint ((_ to_fp 11 53) RNE (to_real i)))))))")
+}
+
+// staticCallOrdinals ranks, in source order, the calls to each statically known callee (so that
+// `at call f#N` does not depend on the order in which blocks are executed).
+func (fx *FuncExec) staticCallOrdinals() {
+	byName := map[string][]ssa.Instruction{}
+	for _, b := range fx.fn.Blocks {
+		for _, in := range b.Instrs {
+			ci, ok := in.(ssa.CallInstruction)
+			if !ok {
+				continue
+			}
+			c := ci.Common()
+			name := ""
+			if c.IsInvoke() {
+				name = "(" + typeKey(c.Value.Type()) + ")." + c.Method.Name()
+			} else {
+				switch v := c.Value.(type) {
+				case *ssa.Function:
+					name = fx.V.funcKey(v)
+				case *ssa.MakeClosure:
+					name = fx.V.funcKey(v.Fn.(*ssa.Function))
+				case *ssa.Builtin:
+					continue
+				default:
+					continue // resolved dynamically: execution-order ordinals
+				}
+			}
+			short := name
+			if i := strings.LastIndex(short, ":"); i >= 0 {
+				short = short[i+1:]
+			}
+			byName[short] = append(byName[short], in)
+		}
+	}
+	fx.callOrdStatic = map[ssa.Instruction]int{}
+	for _, ins := range byName {
+		sort.SliceStable(ins, func(i, j int) bool { return ins[i].Pos() < ins[j].Pos() })
+		for i, in := range ins {
+			fx.callOrdStatic[in] = i + 1
+		}
+	}
 }
